@@ -43,7 +43,7 @@ func (k *tiClient) recvScalar(addr ssa.Value) string {
 	if !ok || fa.X != ssa.Value(k.fn.Params[0]) {
 		return ""
 	}
-	name := fa.X.Type().Underlying().(*types.Pointer).Elem().Underlying().(*types.Struct).Field(fa.Field).Name()
+	name := core.FieldName(fa.X.Type().Underlying().(*types.Pointer).Elem().Underlying().(*types.Struct), fa.Field)
 	if !k.c.scalars[name] {
 		return ""
 	}
@@ -141,7 +141,7 @@ func tokenInit(p *core.Prog, r *core.Result) {
 	basicField := map[string]bool{}
 	for i := 0; i < st.NumFields(); i++ {
 		if b, ok := st.Field(i).Type().(*types.Basic); ok && b.Info()&(types.IsBoolean|types.IsInteger) != 0 {
-			basicField[st.Field(i).Name()] = true
+			basicField[core.FieldName(st, i)] = true
 		}
 	}
 	var methods []*ssa.Function
@@ -157,7 +157,7 @@ func tokenInit(p *core.Prog, r *core.Result) {
 			for _, in := range b.Instrs {
 				if s, ok := in.(*ssa.Store); ok {
 					if fa, ok := s.Addr.(*ssa.FieldAddr); ok && fa.X == ssa.Value(f.Params[0]) {
-						n := st.Field(fa.Field).Name()
+						n := core.FieldName(st, fa.Field)
 						if basicField[n] {
 							scalars[n] = true
 						}
@@ -187,7 +187,7 @@ func tokenInit(p *core.Prog, r *core.Result) {
 	if sp := p.SPkgs["json"]; sp != nil {
 		for name, m := range sp.Members {
 			if nc, ok := m.(*ssa.NamedConst); ok {
-				if n, ok := nc.Type().(*types.Named); ok && n.Obj().Name() == "state" {
+				if n, ok := nc.Type().(*types.Named); ok && core.TypeName(n) == "state" {
 					if v, ok := constIntVal(nc.Value); ok {
 						constName[v] = name
 					}
@@ -207,9 +207,9 @@ func tokenInit(p *core.Prog, r *core.Result) {
 				switch x := in.(type) {
 				case *ssa.Store:
 					if fa, ok := x.Addr.(*ssa.FieldAddr); ok && fa.X == ssa.Value(g.Params[0]) {
-						n := st.Field(fa.Field).Name()
+						n := core.FieldName(st, fa.Field)
 						stores[n] = true
-						if nt, ok := st.Field(fa.Field).Type().(*types.Named); ok && nt.Obj().Name() == "state" {
+						if nt, ok := st.Field(fa.Field).Type().(*types.Named); ok && core.TypeName(nt) == "state" {
 							if v, ok := constIntVal(x.Val); ok {
 								entries = append(entries, v)
 							}
